@@ -494,9 +494,12 @@ def _run_history (case, rep, w):
           p.ps_expected = list(p.early_ps) + p.ps_expected
       elif kind == "port_status":
         no = op[3]
+        # (the reason given with the operation, if any: a port that flaps
+        #  sends the very same notification again and again)
+        reason = (no + len(p.early_ps) + len(p.ps_expected)) % 3
+        if len(op) > 4 and isinstance(op[4], int): reason = op[4]
         raw = ofwire.enc_message("port_status", dict(
-          xid=0, reason=(no + len(p.early_ps) + len(p.ps_expected)) % 3,
-          desc=ctl.phy_port(no)))
+          xid=0, reason=reason, desc=ctl.phy_port(no)))
         if p.aborted: pass
         elif p.completed: p.ps_expected.append(no)
         elif p.features is not None:
@@ -600,7 +603,9 @@ def gen_single (shard, nshards):
   asynchronous messages, completed by the right barrier answer."""
   hs = [("hello",), ("features", 0), ("desc",)]
   asyncs = [("port_status", 1), ("port_status", 2), ("echo",), ("packet_in",),
-            ("error",), ("barrier_wrong",), ("error_near", 0), ("error_near", 2)]
+            ("error",), ("barrier_wrong",), ("error_near", 0), ("error_near", 2),
+            # (the same notification twice: a port that flaps)
+            ("port_status", 1, 0), ("port_status", 1, 0, "again")]
   i = 0
   for a1, a2 in itertools.combinations(asyncs, 2):
     items = hs + [a1, a2]
@@ -638,7 +643,9 @@ def gen_multi (rng, n, maxlen):
       elif r < 0.58:
         ops.append(["msg", i, rng.choice(["barrier_ok", "barrier_ok",
                                           "barrier_err", "barrier_wrong"])])
-      elif r < 0.68: ops.append(["msg", i, "port_status", rng.randrange(1, 4)])
+      elif r < 0.68:
+        ops.append(["msg", i, "port_status", rng.randrange(1, 4)])
+        if rng.random() < 0.5: ops[-1].append(rng.choice([0, 0, 1, 2]))
       elif r < 0.75:
         k = rng.choice(["echo", "packet_in", "error", "desc", "error_near"])
         ops.append(["msg", i, k] + ([rng.randrange(3)] if k == "error_near" else []))
